@@ -49,6 +49,9 @@ type TxnResult struct {
 	Post         kit.State         `json:"-"`
 	Committed    bool              `json:"committed"`
 	Names        map[string]string `json:"names,omitempty"`
+	// PreValidation: the failure is detected before any operation runs; its position in
+	// the reply is not compared.
+	PreValidation bool `json:"preValidation,omitempty"`
 	// MayReject lists tolerance classes hit anywhere in the transaction.
 	MayReject []string `json:"mayRejectClasses,omitempty"`
 	// CommitMayReject: at commit time the implementation may reject although the model accepts.
@@ -93,11 +96,11 @@ func Exec(s kit.Schema, st kit.State, ops []kit.Op, assigned func(i int) string)
 		}
 		u := op.UUID
 		if op.UUIDName != "" {
-			if prev, ok := res.Names[op.UUIDName]; ok {
-				if u != "" && u != prev {
-					return failAll(res, st, ErrGeneric, "named uuid maps to two uuids")
-				}
-				u = prev
+			if _, ok := res.Names[op.UUIDName]; ok {
+				// RFC 7047: "duplicate uuid-name". Reported for the transaction as a whole
+				// (the implementation validates names before executing anything).
+				res.PreValidation = true
+				return failAll(res, st, ErrGeneric, "duplicate uuid-name "+op.UUIDName)
 			}
 		}
 		if u == "" && assigned != nil {
@@ -189,8 +192,18 @@ func Exec(s kit.Schema, st kit.State, ops []kit.Op, assigned func(i int) string)
 		return out, r
 	}
 
+	for _, op := range ops {
+		if op.Poison != "" && op.PoisonPre {
+			res.PreValidation = true
+			return failAll(res, st, op.Poison, "poisoned operation (validation pass)")
+		}
+	}
 	dupSeen := map[string]bool{}
 	for i, op := range ops {
+		if op.Poison != "" {
+			res.PreValidation = res.PreValidation || op.PoisonPre
+			return fail(i, op.Poison, "poisoned operation")
+		}
 		t := s.Table(op.Table)
 		if t != nil {
 			for _, idx := range t.Indexes {
